@@ -263,7 +263,7 @@ def run(ctx):
     G.run_families(ctx, __name__, 6, 7, [0, 6])
     from .. import astgen as A
     ns = 16
-    for fam in ('no-rules', 'rules', 'examples-shapes'):
+    for fam in ('no-rules', 'rules', 'examples-shapes', 'pairs'):
         ctx.level('compiler shapes:' + fam, [A.job_shapes.job(__name__, fam, s, ns, ctx.quick) for s in range(ns)])
     h = ctx.pick(3, 4)
     ctx.level('histories h<=%d' % h, [job_histories.job(i, h) for i in range(len(POOL))])
